@@ -88,6 +88,7 @@ def run_case(ctx, f, kw_plain, kw_lst, mode_linked, mode_mlinked, unknown):
     ns = Obj("ns", self=inst, cls=Obj("Cls", __name__="Cls", _param__private=Obj("class_private", explicit_no_refs=["plain", "lst"])),
              _cls_parameters=dict(params))
     snapshot = {}
+    linked_early = []
 
     def hook(fn, args, kwargs):
         if fn == "setattr" and len(args) == 3:
@@ -100,6 +101,9 @@ def run_case(ctx, f, kw_plain, kw_lst, mode_linked, mode_mlinked, unknown):
             return None
         if fn.endswith(".get_param_descriptor") and args:
             return (params.get(args[0]), Obj("Cls")) if args[0] in params else (None, None)
+        if fn in ("self_._update_ref", "self_._setup_refs") or fn.endswith(".param._watch"):
+            linked_early.append(fn)
+            return None
         if fn == "self_._resolve_ref" and len(args) == 2:
             if id(args[1]) in refinfo:
                 return refinfo[id(args[1])]
@@ -125,6 +129,7 @@ def run_case(ctx, f, kw_plain, kw_lst, mode_linked, mode_mlinked, unknown):
         raise AnalysisError("constructor model: Parameters._setup_params is not interpretable precisely (%s)" % (outs[0].notes[:2] if outs else "no outcome"))
     if not snapshot:
         snapshot.update(values)
+    values["__linked_early__"] = list(linked_early)
     return outs[0], values, snapshot, sets, given, refinfo, d, copies, (UNDEF, SKIP)
 
 
@@ -133,7 +138,7 @@ MODES = [None, "value", "ref", "ref-novalue", "ref-skip", "async"]
 
 def model(ctx):
     f = ctx.repo.func(P + "Parameters._setup_params")
-    problems = {"C12": [], "C14": [], "C08": [], "C10": [], "C01": []}
+    problems = {"C12": [], "C14": [], "C08": [], "C10": [], "C01": [], "C05": []}
     n = 0
     for kw_plain, kw_lst, ml, mm, unknown in itertools.product([False, True, "default-object"], [False, True], MODES, MODES, [False, True]):
         try:
@@ -141,7 +146,11 @@ def model(ctx):
         except Unsupported as e:
             raise AnalysisError("constructor model: absint cannot interpret Parameters._setup_params: %s" % e)
         n += 1
+        early = values.pop("__linked_early__", [])
         desc = "Cls(%s)" % ", ".join("%s=<%s>" % (k, (ml if k == "linked" else mm if k == "mlinked" else "value")) for k in given)
+        if early:
+            problems["C05"].append("%s: while the keywords are still being applied the constructor already installs a link (%s): when a later keyword is rejected, the source object keeps a "
+                                   "watcher on behalf of the half-built instance, which then runs (and may raise) on every later assignment of the source" % (desc, early[0]))
         if unknown:
             if o.kind != "raise":
                 problems["C01"].append("%s: an unknown keyword does not raise" % desc)
@@ -191,6 +200,8 @@ def model(ctx):
         want_refs = {k: refinfo[id(v)][0] for k, v in given.items() if k in ("linked", "mlinked") and refinfo[id(v)][0] is not None}
         got = o.value
         if not (isinstance(got, tuple) and len(got) == 2 and isinstance(got[0], dict) and isinstance(got[1], dict)):
+            if early or not want_refs:
+                continue          # the references are linked on the spot instead of being returned (reported above, C05); or there is none to record
             raise AnalysisError("constructor model: _setup_params returns %r, not (refs, deps)" % (got,))
         refs, deps = got
         if set(refs) != set(want_refs) or any(refs[k] is not want_refs[k] for k in want_refs):
